@@ -644,10 +644,10 @@ func (s *sys) end(es []event, wasOpened bool) {
 	}
 	// P6 (counting part)
 	if !s.concurrent {
-		if s.crRun > s.c.maxConf {
+		if s.crRun > atLeastOne(s.c.maxConf) {
 			s.v("P6-too-many-configure-requests", e.op, "%d Configure-Requests sent without any input from the peer, configured maximum %d", s.crRun, s.c.maxConf)
 		}
-		if s.trRun > s.maxTerm() {
+		if s.trRun > atLeastOne(s.maxTerm()) {
 			s.v("P6-too-many-terminate-requests", e.op, "%d Terminate-Requests sent without any input from the peer, configured maximum %d", s.trRun, s.maxTerm())
 		}
 	}
@@ -668,6 +668,16 @@ func (s *sys) lastInput() string {
 		}
 	}
 	return "init"
+}
+
+// atLeastOne: the first transmission of a request is not a retransmission; the
+// events that mandate it (Open/Up, Close, a Nak, ...) do so whatever the
+// configured maximum, so a maximum of 0 still allows that one packet.
+func atLeastOne(n int) int {
+	if n < 1 {
+		return 1
+	}
+	return n
 }
 
 func (s *sys) maxTerm() int {
@@ -916,15 +926,18 @@ func (r *reg) note(s *sys) {
 
 func configs(thorough bool) []cfg {
 	cs := []cfg{
-		{proto: "lcp", maxConf: 3, maxTerm: 3, maxFail: 1},
-		{proto: "lcp", maxConf: 3, maxTerm: 2, maxFail: 0},
+		{proto: "lcp", maxConf: 3, maxTerm: 2, maxFail: 1},
+		// boundary values of the retransmission limits (0 and 1 for each) and of Max-Failure
+		{proto: "lcp", maxConf: 0, maxTerm: 1, maxFail: 0},
+		{proto: "lcp", maxConf: 1, maxTerm: 0, maxFail: 1},
 		{proto: "ipcp", peer: "static", maxConf: 3},
 		{proto: "ipcp", peer: "pool", maxConf: 3},
 		{proto: "ipcp", peer: "none", maxConf: 3},
 		{proto: "ipv6cp", maxConf: 3},
 	}
 	if thorough {
-		cs = append(cs, cfg{proto: "lcp", maxConf: 2, maxTerm: 3, maxFail: 2})
+		cs = append(cs, cfg{proto: "lcp", maxConf: 3, maxTerm: 3, maxFail: 0}, cfg{proto: "lcp", maxConf: 2, maxTerm: 3, maxFail: 2},
+			cfg{proto: "ipcp", peer: "static", maxConf: 1}, cfg{proto: "ipv6cp", maxConf: 1})
 	}
 	return cs
 }
